@@ -388,7 +388,13 @@ func (s *Server) SendErrorResponse(invokeID string, resp *interop.ErrorInvokeRes
 		directinvoke.ErrorTypeHeader:   string(resp.FunctionError.Type),
 	}
 	if functionResponseMode := resp.Headers.FunctionResponseMode; functionResponseMode != "" {
-		additionalHeaders[directinvoke.FunctionResponseModeHeader] = functionResponseMode
+		// the direct reply path parses the mode back from these headers and gives up on a value it does not know
+		// (nothing forwarded, the reply marked sent): an error must reach the invoker whatever the runtime put there
+		if _, err := interop.ConvertToFunctionResponseMode(functionResponseMode); err == nil {
+			additionalHeaders[directinvoke.FunctionResponseModeHeader] = functionResponseMode
+		} else {
+			log.Warnf("Ignoring unknown function response mode %q of an error response", functionResponseMode)
+		}
 	}
 	runtimeCalledResponse := false // we are sending an error here, so runtime called /error or crashed/timeout
 	return s.sendResponseUnsafe(invokeID, additionalHeaders, bytes.NewReader(resp.Payload), nil, nil, runtimeCalledResponse)
